@@ -20,6 +20,8 @@ def time(s=""):
 
 
 time()
+import dataclasses
+
 import astroid
 
 from . import types
@@ -132,6 +134,9 @@ def compile_code(
         options = CompileOptions(**options)
     if options is None:
         options = CompileOptions()
+    else:
+        # in-source pragmas must not leak into the caller's options object
+        options = dataclasses.replace(options)
 
     main_module = src[""] if isinstance(src, dict) else src
     if "pytrapic:" in main_module:
